@@ -33,8 +33,19 @@ impl Stub for Backend {
     type Resp = u64;
     async fn call(&self, _: context::Context, r: u64) -> Result<u64, RpcError> {
         self.log.borrow_mut().push((self.idx, r));
-        Ok(r)
+        // a backend whose connection has gone (its dispatch was dropped) answers every call with
+        // Shutdown; a slow one with DeadlineExceeded: it is still one of the backends
+        match DEAD.with(|d| d.get()) {
+            Some((i, 0)) if i == self.idx => Err(RpcError::Shutdown),
+            Some((i, 1)) if i == self.idx => Err(RpcError::DeadlineExceeded),
+            Some((i, _)) if i == self.idx => Err(RpcError::Server(ServerError::new(std::io::ErrorKind::Other, "down".to_string()))),
+            _ => Ok(r),
+        }
     }
+}
+thread_local! {
+    /// (index of the failing backend, kind of failure)
+    static DEAD: std::cell::Cell<Option<(usize, u8)>> = const { std::cell::Cell::new(None) };
 }
 
 /// A backend whose calls stay pending (to keep several calls in flight at once).
@@ -95,9 +106,25 @@ fn round_robin(st: &mut St, max_calls: usize) {
         for k in 0..=max_calls {
           // which calls carry a context whose deadline has already passed (a caller re-using an old
           // context): none, every other one, two in every three - in every phase
+          // one backend that answers every call with an error (in turn: each position, each kind)
+          let mut deads: Vec<Option<(usize, u8)>> = vec![None];
+          if n >= 2 && k <= 8 {
+              for i in [0, 1, n - 1] {
+                  for kind in 0..3u8 {
+                      if !deads.contains(&Some((i, kind))) {
+                          deads.push(Some((i, kind)));
+                      }
+                  }
+              }
+          }
+          for dead in deads {
+          DEAD.with(|d| d.set(dead));
           for expired_mask in [0u32, 0x5555_5555, 0xAAAA_AAAA, 0xDB6D_B6DB, 0xB6DB_6DB6, 0x6DB6_DB6D, 0xFFFF_FFFE, 0x7FFF_FFFF] {
           for describe in [false, true] {
             if describe && (k > 8 || expired_mask != 0) {
+                continue;
+            }
+            if dead.is_some() && (describe || expired_mask != 0) {
                 continue;
             }
             if expired_mask != 0 && k > 9 {
@@ -124,12 +151,12 @@ fn round_robin(st: &mut St, max_calls: usize) {
                     }
                 }
                 st.evals += 1;
-                st.distinct.insert(h(&("rr", n, k, pattern, describe, expired_mask)));
+                st.distinct.insert(h(&("rr", n, k, pattern, describe, expired_mask, dead)));
                 if k == 7 && pattern == 0b1010101 {
                     st.samples.push(format!("round robin n={n} calls={k} clone pattern {pattern:#b}: backends hit {:?}", log.borrow().iter().map(|x| x.0).collect::<Vec<_>>()));
                 }
                 if let Err(e) = balanced(&log.borrow(), n) {
-                    st.failures.push(("C20-rr-unbalanced".into(), format!("n={n} calls={k} clone pattern {pattern:#b}{}{}: {e}", if describe { " (the stub is Debug-formatted before every second call)" } else { "" }, if expired_mask != 0 { format!(" (calls {expired_mask:#b} carry a context whose deadline has passed)") } else { String::new() })));
+                    st.failures.push(("C20-rr-unbalanced".into(), format!("n={n} calls={k} clone pattern {pattern:#b}{}{}: {e}", if describe { " (the stub is Debug-formatted before every second call)" } else { "" }, if expired_mask != 0 { format!(" (calls {expired_mask:#b} carry a context whose deadline has passed)") } else if let Some((i, kind)) = dead { format!(" (backend {i} answers every call with {})", ["Shutdown", "DeadlineExceeded", "a server error"][kind as usize]) } else { String::new() })));
                 }
                 if log.borrow().len() != k {
                     st.failures.push(("C20-rr-lost-call".into(), format!("n={n}: {k} calls, {} reached a backend", log.borrow().len())));
@@ -137,6 +164,8 @@ fn round_robin(st: &mut St, max_calls: usize) {
             }
           }
           }
+          }
+          DEAD.with(|d| d.set(None));
         }
         // task-level concurrency: 3 calls created, first polls in every order, all stay in flight
         let orders: [[usize; 3]; 6] = [[0, 1, 2], [0, 2, 1], [1, 0, 2], [1, 2, 0], [2, 0, 1], [2, 1, 0]];
